@@ -10,7 +10,7 @@ CONFIGS = ['prod']
 EXPLANATION = (
     'The whole property (convergence for all histories, delivery schedules and repair orders) is a runtime statement and is NOT decided. '
     'S3.SEM: the supervision of one repair exchange interpreted against scripted progress histories and both outcomes of the removal task (Ok <=> done seen, never expired, removals joined '
-    'and succeeded). S7.SEM: the poller interpreted over three polling rounds against two peers — every keyspace a peer lists whose change stamp is not the one recorded at that peer\'s last successful exchange of it has its difference computed against that peer and is exchanged with it (the tracker and KeyspaceTimestamps::diff are the real code). Decided necessary conditions of repair-based convergence: S1 source-id discipline — every keyspace message built on the client / '
+    'and succeeded). S7.SEM: the poller interpreted over three polling rounds against two peers — every keyspace a peer lists whose change stamp is not the one recorded at that peer\'s last successful exchange of it has its difference computed against that peer and is exchanged with it (the tracker and KeyspaceTimestamps::diff are the real code). S8: the mechanisms convergence rests on re-evaluated under C01 (the hybrid clock\'s send / recv, the set\'s insert / delete / merge / diff and its version vectors, the clock actor and its handle — the same summaries that decide C09, C04, C03, C05, C11). Decided necessary conditions of repair-based convergence: S1 source-id discipline — every keyspace message built on the client / '
     'consistency-service path carries the ordered-stream source id and every one built on the repair path carries the repair source id, '
     'the two constants differ and are below the number of sources (mixing the ordered and the unordered stream on one source makes a '
     'replica refuse operations it lacks, permanently); S2 every locally accepted client mutation is handed to the batch distributor on '
@@ -51,20 +51,20 @@ def named_const_value(facts, path):
     return None
 
 
-def check_S1(ctx, facts, cg):
+def check_S1(ctx, facts, cg, rule='C01.S1'):
     cons_roots = [b for b in facts.bodies.values() if not b.d['promoted'] and (
         re.match(re.escape(EC) + r'ReplicatedStoreHandle::(put|put_many|del|del_many)$', b.name) or
         (b.impl and 'ConsistencyService' in b.impl and 'datacake_rpc::handler::Handler' in b.impl and b.name.endswith('::on_message')))]
     rep_roots = [b for b in facts.bodies.values() if b.name == EC + 'replication::poller::replication_cycle']
     if len(cons_roots) < 9 or not rep_roots:
-        ctx.bad('C01.S1', 'roots', '', 'client API / ConsistencyService handlers / replication_cycle not all found (%d, %d) (fail closed)' % (len(cons_roots), len(rep_roots)))
+        ctx.bad(rule, 'roots', '', 'client API / ConsistencyService handlers / replication_cycle not all found (%d, %d) (fail closed)' % (len(cons_roots), len(rep_roots)))
         return
     cons_reach = {b.defp for b in cg.reach(cons_roots, bound=10)}
     rep_reach = {b.defp for b in cg.reach(rep_roots, bound=10)}
     C = named_const_value(facts, EC + 'keyspace::CONSISTENCY_SOURCE_ID')
     R = named_const_value(facts, EC + 'keyspace::READ_REPAIR_SOURCE_ID')
     N = named_const_value(facts, EC + 'keyspace::messages::NUM_SOURCES')
-    ctx.ob('C01.S1', 'constants', C is not None and R is not None and N is not None and C != R and C < N and R < N, '',
+    ctx.ob(rule, 'constants', C is not None and R is not None and N is not None and C != R and C < N and R < N, '',
            'CONSISTENCY_SOURCE_ID=%s READ_REPAIR_SOURCE_ID=%s NUM_SOURCES=%s (must differ, both below NUM_SOURCES)' % (C, R, N))
     n_cons = n_rep = 0
     for body in facts.bodies.values():
@@ -80,23 +80,23 @@ def check_S1(ctx, facts, cg):
             role = 'consistency' if on_cons and not on_rep else 'repair' if on_rep and not on_cons else 'both' if on_cons and on_rep else 'unreached'
             want = C if role == 'consistency' else R if role == 'repair' else None
             where = body.name.replace(EC, '').replace('::{closure#0}', '')
-            idx = len([o for o in ctx.obs if o.rule == 'C01.S1' and o.key.startswith('%s|%s#' % (where, last_seg(rv['adt'])))])
+            idx = len([o for o in ctx.obs if o.rule == rule and o.key.startswith('%s|%s#' % (where, last_seg(rv['adt'])))])
             key = '%s|%s#%d' % (where, last_seg(rv['adt']), idx)
             if role == 'consistency':
                 n_cons += 1
             elif role == 'repair':
                 n_rep += 1
             if val is None:
-                ctx.bad('C01.S1', key, site(body, s['cs']), 'source id of this %s message is not a compile-time constant' % last_seg(rv['adt']))
+                ctx.bad(rule, key, site(body, s['cs']), 'source id of this %s message is not a compile-time constant' % last_seg(rv['adt']))
             elif want is None:
-                ctx.bad('C01.S1', key, site(body, s['cs']), 'message construction site is on %s path(s): cannot assign a stream (fail closed)' % role)
+                ctx.bad(rule, key, site(body, s['cs']), 'message construction site is on %s path(s): cannot assign a stream (fail closed)' % role)
             else:
-                ctx.ob('C01.S1', key, val == want, site(body, s['cs']),
+                ctx.ob(rule, key, val == want, site(body, s['cs']),
                        '%s message on the %s path carries source %s (%s)' % (last_seg(rv['adt']), role, val, last_seg(path or '?')) +
                        ('' if val == want else ' — expected %s: the ordered broadcast stream and the unordered repair stream share one source, so '
                         'a replica that saw a newer operation of an origin on that source refuses the older ones it still lacks' % want))
-    ctx.floor('C01.S1', 'message sites on the client/consistency path', n_cons, 10)
-    ctx.floor('C01.S1', 'message sites on the repair path', n_rep, 3)
+    ctx.floor(rule, 'message sites on the client/consistency path', n_cons, 10)
+    ctx.floor(rule, 'message sites on the repair path', n_rep, 3)
 
 
 def check_S2(ctx, facts):
@@ -347,3 +347,24 @@ def check(ctx):
     check_S3(ctx, facts)
     check_S4(ctx, facts)
     c05.check_D1(ctx, facts, rule='C01.S5')
+    check_S8(ctx, facts)
+
+
+def check_S8(ctx, facts):
+    """S8: the mechanisms convergence rests on, re-evaluated under C01's own rule ids — the summaries that decide them for their own
+    properties (C09, C04, C03, C05, C11) are run again here, because a defect in any of them is a defect of convergence (round 6:
+    a clock whose `recv` can step backwards makes the origin issue a put older than one it already issued; the replicas' version
+    gate keeps it out of every set, and no repair exchange ever lists it).  Only the semantic summaries are re-run: where one
+    declines (a construct outside its vocabulary) the owning property's structural clauses decide, and nothing is reported here."""
+    import hlc_abs
+    import orswot_abs
+    import versions_abs
+    import actor_abs
+    hlc_abs.check_hlc(ctx, facts, 'C01.S8.HLC')
+    orswot_abs.check_mutators(ctx, facts, 'C01.S8.SET')
+    orswot_abs.check_merge(ctx, facts, 'C01.S8.SET')
+    orswot_abs.check_wrappers(ctx, facts, 'C01.S8.SET')
+    orswot_abs.check_diff(ctx, facts, 'C01.S8.SET')
+    versions_abs.check_versions(ctx, facts, 'C01.S8.VERSIONS')
+    actor_abs.check_clock_actor(ctx, facts, 'C01.S8.CLOCK')
+    actor_abs.check_clock_handle(ctx, facts, 'C01.S8.CLOCK')
